@@ -136,6 +136,37 @@ def TraitDict.init (kv : Callback K K) (vv : Callback V V) (ps : List (K × V)) 
   | .error e => .error e
   | .ok ps' => .ok (ofPairs ps')
 
+/-- The constructors as `TraitDict.init` and the drivers assume them (statement
+texts of `__new__` / `__init__` of `TraitDict` and `__init__` of
+`TraitDictObject`, trait_dict_object.py:114-141, 440-452): a validator / notifier
+list is taken iff it `is not None` (a falsy callable object or an empty list is
+used as given), and a `TraitDictObject` is linked to its owner iff the owner
+`is not None` (an alive but falsy owner is an owner).  `Props/C06.lean`
+`C06_init_source` compares them with the texts read from the working tree. -/
+def dictConstructorsAssumed : List (List String) :=
+  [["def __new__(cls, *args, **kwargs)",
+    "self = super().__new__(cls)",
+    "self.key_validator = _validate_everything",
+    "self.value_validator = _validate_everything",
+    "self.notifiers = []",
+    "return self"],
+   ["def __init__(self, value=None, *, key_validator=None, value_validator=None, notifiers=None)",
+    "if key_validator is not None: self.key_validator = key_validator",
+    "if value_validator is not None: self.value_validator = value_validator",
+    "if notifiers is None: notifiers = []",
+    "self.notifiers = notifiers",
+    "if value is None: value = {}",
+    "items = value.items() if hasattr(value, 'keys') else value",
+    "value = {self.key_validator(key): self.value_validator(value) for key, value in items}",
+    "super().__init__(value)"],
+   ["def __init__(self, trait, object, name, value)",
+    "self.trait = trait",
+    "self.object = (lambda: None) if object is None else ref(object)",
+    "self.name = name",
+    "self.name_items = None",
+    "if trait is not None and trait.has_items: self.name_items = name + '_items'",
+    "super().__init__(value, key_validator=self._key_validator, value_validator=self._value_validator, notifiers=[self.notifier])"]]
+
 /-! ### Notifiers -/
 
 /-- `for key in changed: added[key] = trait_dict[key]` (_dict_change_event.py:77-78);
